@@ -234,6 +234,7 @@ func runCheck(repo, verif, prop, tier string, seed int) int {
 	var violationOrder []string
 	knownSeen := map[string]bool{}
 	trusted := map[string]bool{}
+	modelNotes := map[string]bool{}
 	havoc := map[string]bool{}
 	inferred := 0
 	covers := 0
@@ -275,6 +276,12 @@ func runCheck(repo, verif, prop, tier string, seed int) int {
 			}
 		}
 		fj["discharged"] = nd
+		if len(r.Warnings) > 0 {
+			fj["modelling_notes"] = r.Warnings
+			for _, w := range r.Warnings {
+				modelNotes[r.Func+": "+w] = true
+			}
+		}
 		fj["inferred_invariants"] = r.Inferred
 		inferred += len(r.Inferred)
 		for _, t := range r.Trusted {
@@ -331,6 +338,9 @@ func runCheck(repo, verif, prop, tier string, seed int) int {
 
 	for t := range trusted {
 		assumptions = append(assumptions, "trusted library contract: "+t)
+	}
+	for n := range modelNotes {
+		assumptions = append(assumptions, "modelling note: "+n)
 	}
 	sort.Strings(assumptions)
 	assumptions = append(assumptions, pc.Assumptions...)
